@@ -1,6 +1,45 @@
-"""C05 — decided on the serial dependency engine; see deps_check.py (shared body) and DESIGN §7."""
+"""C05 — decided on the serial dependency engine; see deps_check.py (shared body) and DESIGN §7.  Plus one directed
+scenario outside the script DSL: a plain `redo` called from a script under a `redo --keep-going` run."""
 import deps_check
 from c_deps_common import *
+from common import *
+from proj import Project
+
+
+def nested_redo_keep_going(viol):
+    """`redo --keep-going all`; all.do: redo-ifchange reports other; reports.do: `redo part-a part-b part-c`; part-a
+    fails.  With --keep-going every requested target that does not depend on a failed one is still built: part-b,
+    part-c and other; the command exits non-zero; part-a ran once."""
+    pr = Project()
+    try:
+        pr.write("all.do", "redo-ifchange reports other\n")
+        pr.write("reports.do", "redo part-a part-b part-c\ncat part-a part-b part-c\n")
+        pr.write("part-a.do", "echo ran >>part-a.runs\nexit 1\n")
+        pr.write("part-b.do", "echo b\n")
+        pr.write("part-c.do", "echo c\n")
+        pr.write("other.do", "echo other\n")
+        rc, out, err = pr.run(["redo", "--keep-going", "all"], timeout=60)
+        runs = len((pr.read("part-a.runs") or b"").split())
+        missing = [t for t in ("part-b", "part-c", "other") if pr.read(t) is None]
+        problems = []
+        if rc == 0:
+            problems.append("exit status 0 although part-a failed")
+        if missing:
+            problems.append("not built although independent of the failed target: %s" % ", ".join(missing))
+        if runs != 1:
+            problems.append("part-a.do ran %d times" % runs)
+        if problems:
+            p = write_replay("C05", "nested-redo-k", dict(kind="impl-monitor", problems=problems, rc=rc, stderr=err[-1500:],
+                                                          scenario="redo --keep-going all; all.do: redo-ifchange reports other; reports.do: redo part-a part-b part-c; part-a.do exits 1"))
+            viol.append(Violation("C05", p, "plain `redo` inside a script of a --keep-going run: " + "; ".join(problems)))
+    finally:
+        pr.destroy()
+
 
 def run(ctx):
-    return deps_check.run_property(ctx, "C05", FEATURES["C05"], NCASES["C05"], WANT["C05"], known_matcher=KNOWN.get("C05"))
+    cov = deps_check.run_property(ctx, "C05", FEATURES["C05"], NCASES["C05"], WANT["C05"], known_matcher=KNOWN.get("C05"))
+    viol = ctx.setdefault("violations", [])
+    if not viol and not ctx.get("replay"):
+        nested_redo_keep_going(viol)
+        cov["directed_scenarios"] = 1
+    return cov
